@@ -45,19 +45,22 @@ Definition DLInv (l : lst) : Prop :=
 
 Lemma sleepy_actor P l a s' w : actor a = Some w -> guard P l a = true ->
   wpc (ctl P l a s') w = PWait \/ wpc (ctl P l a s') w = PSleep ->
-  (exists nx, a = LTmDone w nx /\ tmo (ctl P l a s') w <> None) \/
+  (exists nx, a = LTmDone w nx /\ tmo (ctl P l a s') w <> None /\
+              (budgeted P = true -> lq (base l) w <> [] -> tmo (ctl P l a s') w = Some 0%N)) \/
   (exists io, a = LPoll w io /\ wpc l w = PWait /\ tmo (ctl P l a s') w = tmo l w /\
      (wpc (ctl P l a s') w = PSleep ->
       dl (ctl P l a s') w = option_map (fun t => (now l + rnd t)%N) (tmo l w) /\ slept (ctl P l a s') w = now l /\
-      now (ctl P l a s') = now l)).
+      now (ctl P l a s') = now l /\ is_zero (tmo l w) = false)).
 Proof.
   intros A G. destruct a; cbn [actor] in A; try discriminate A; inversion A; subst w0; clear A; cbn [guard] in G; gsplit G.
   all: match goal with G : _ |- _ => progress pcs G end.
   all: unfold ctl; rewrite ?E.
   all: try (dmatch; unfold grabbed, taken; dmatch; lsimp; rewrite ?upd_eq, ?E; intros [X|X]; discriminate X).
   - intros _. right. exists io. split; [reflexivity|]. split; [reflexivity|].
-    destruct (evfd l w || io); lsimp; rewrite ?upd_eq; (split; [reflexivity|]); intro X; try discriminate X; auto.
-  - intros _. left. exists nx. split; [reflexivity|]. lsimp. rewrite upd_eq. discriminate.
+    destruct (evfd l w || io); cbn [orb]; [|destruct (is_zero (tmo l w)) eqn:Z]; lsimp; rewrite ?upd_eq; (split; [reflexivity|]);
+      intro X; try discriminate X; auto.
+  - intros _. left. exists nx. split; [reflexivity|]. lsimp. rewrite upd_eq. split; [discriminate|].
+    intros -> NE. destruct (lq (base l) w); [congruence | reflexivity].
 Qed.
 
 Lemma fsinv_step P l a l' : FSInv l -> lstep P l a = Some l' -> FSInv l'.
@@ -66,7 +69,7 @@ Proof.
   destruct (lstep_inv _ _ _ _ H) as (G & s' & E & _).
   assert (OLD : tmo l w = None /\ (wpc l w = PWait \/ wpc l w = PSleep)).
   { destruct (option_nat_dec (actor a) (Some w)) as [A|NA].
-    - subst l'. destruct (sleepy_actor P l a s' w A G S) as [(nx & _ & X)|(io & _ & X & Y & _)]; [contradiction|].
+    - subst l'. destruct (sleepy_actor P l a s' w A G S) as [(nx & _ & X & _)|(io & _ & X & Y & _)]; [contradiction|].
       split; [congruence | auto].
     - subst l'. rewrite wpc_ctl_other in S by exact NA. destruct (own_fields_other P l a s' w NA) as (X & _). split; [congruence | exact S]. }
   destruct OLD as [T0 S0]. specialize (I w T0 S0).
@@ -84,7 +87,7 @@ Proof.
   destruct (option_nat_dec (actor a) (Some w)) as [A|NA].
   - subst l'. destruct (sleepy_actor P l a s' w A G (or_intror S)) as [(nx & -> & _)|(io & _ & _ & X & Y)].
     + unfold ctl in S. lsimp. rewrite upd_eq in S. discriminate.
-    + destruct (Y S) as (Y1 & Y2 & Y3). rewrite Y1, Y2, X, Y3. split; [reflexivity | lia].
+    + destruct (Y S) as (Y1 & Y2 & Y3 & _). rewrite Y1, Y2, X, Y3. split; [reflexivity | lia].
   - subst l'. rewrite wpc_ctl_other in S by exact NA. destruct (own_fields_other P l a s' w NA) as (X1 & X2 & X3).
     rewrite X1, X2, X3. destruct (I w S) as (I1 & I2). split; [exact I1 | lia].
 Qed.
@@ -95,42 +98,111 @@ Lemma dlinv_reach P n l : LReach P n l -> DLInv l.
 Proof. induction 1; [intros w X; discriminate X | eapply dlinv_step; eauto]. Qed.
 
 (* ---- rounds: every call of run_queued_tasks completes a collect_global before it returns (work_steal) ---- *)
+(* before the fix: run_queued_tasks returns only through `local.pop() = None -> collect_global`; with the budget: also when
+   the budget is used up, and then - if 1 <= interval < budget - a collect_global was done when the remaining budget passed
+   the largest multiple of the interval *)
 Definition after_collect (p : lpc) : bool :=
   match p with PHas | PSteal _ | PTim | PRes RTim | PCo RTim => true | _ => false end.
+Definition in_call (p : lpc) : bool :=
+  match p with
+  | PRun | PRes RRun | PCo RRun | PRes RSt | PCo RSt | PColl FromRun | PPut FromRun | PColl FromBud | PPut FromBud
+  | PHas | PSteal _ | PStPut => true
+  | _ => false end.
+Definition bud_coll (p : lpc) : bool := match p with PColl FromBud | PPut FromBud => true | _ => false end.
+Definition coll_ok (P : params) : Prop := budgeted P = false \/ (1 <= interval P /\ interval P < budget P).
 
 Definition RCInv (P : params) (l : lst) : Prop :=
   (forall w, coll0 l w <= ncoll l w) /\
-  (work_steal P = true -> forall w, after_collect (wpc l w) = true -> coll0 l w < ncoll l w).
+  (work_steal P = true -> coll_ok P -> forall w, after_collect (wpc l w) = true -> coll0 l w < ncoll l w) /\
+  (budgeted P = true -> 1 <= interval P < budget P -> forall w, in_call (wpc l w) = true ->
+     coll0 l w < ncoll l w \/ interval P < bud l w \/ bud_coll (wpc l w) = true).
 
 Lemma after_actor P l a s' w : work_steal P = true -> actor a = Some w -> guard P l a = true ->
   after_collect (wpc (ctl P l a s') w) = true ->
-  after_collect (wpc l w) = true \/ (a = LBulkEnd w /\ hand (base l) w = []).
+  after_collect (wpc l w) = true \/ (a = LBulkEnd w /\ hand (base l) w = []) \/
+  (a = LCoRet w /\ wpc l w = PCo RRun /\ budgeted P = true /\ Nat.pred (bud l w) = 0).
 Proof.
   intros WS A G. destruct a; cbn [actor] in A; try discriminate A; inversion A; subst w0; clear A; cbn [guard] in G; gsplit G.
   all: match goal with G : _ |- _ => progress pcs G end.
   all: unfold ctl; rewrite ?E, ?WS.
   all: try (dmatch; unfold grabbed, taken; dmatch; lsimp; rewrite ?upd_eq, ?E; cbn [after_collect]; intro X; try discriminate X; auto; fail).
+  (* LCoRet from run_coroutine after local.pop *)
+  destruct r; try (lsimp; rewrite upd_eq; cbn [after_collect]; intro X; try discriminate X; auto; fail).
+  destruct (budgeted P) eqn:BU; [|lsimp; rewrite upd_eq; intro X; discriminate X].
+  destruct (Nat.eqb (Nat.pred (bud l w)) 0) eqn:Z.
+  - apply Nat.eqb_eq in Z. intros _. right; right. auto.
+  - destruct (Nat.eqb (Nat.pred (bud l w) mod interval P) 0); lsimp; rewrite upd_eq; intro X; discriminate X.
+Qed.
+
+Lemma bud_fields_base P l b l0 : bud (ctl_base P l b l0) = bud l0.
+Proof. unfold ctl_base. dmatch; reflexivity. Qed.
+
+Lemma bud_other P l a s' w : actor a <> Some w -> bud (ctl P l a s') w = bud l w.
+Proof.
+  intro NA. destruct a; cbn [actor] in NA; unfold ctl; try (rewrite bud_fields_base; reflexivity);
+    dmatch; unfold grabbed, taken; dmatch; lsimp; rewrite ?upd_neq by congruence; reflexivity.
+Qed.
+
+(* the budget clause for the acting worker *)
+Lemma budget_actor P l a s' w : budgeted P = true -> 1 <= interval P < budget P -> actor a = Some w -> guard P l a = true ->
+  coll0 l w <= ncoll l w ->
+  (in_call (wpc l w) = true -> coll0 l w < ncoll l w \/ interval P < bud l w \/ bud_coll (wpc l w) = true) ->
+  in_call (wpc (ctl P l a s') w) = true ->
+  coll0 (ctl P l a s') w < ncoll (ctl P l a s') w \/ interval P < bud (ctl P l a s') w \/ bud_coll (wpc (ctl P l a s') w) = true.
+Proof.
+  intros BU IB A G C0 I. destruct a; cbn [actor] in A; try discriminate A; inversion A; subst w0; clear A; cbn [guard] in G; gsplit G.
+  all: match goal with G : _ |- _ => progress pcs G end.
+  all: try rewrite E in I; cbn [in_call bud_coll] in I; unfold ctl; rewrite ?E, ?BU.
+  all: try (dmatch; unfold grabbed, taken, inc; dmatch; lsimp; rewrite ?upd_eq, ?E; cbn [in_call bud_coll]; intro X; try discriminate X;
+            try (destruct (I eq_refl) as [Y|[Y|Y]]; try discriminate Y); auto; try (left; lia); fail).
+  - (* LEvDone: a new call of run_queued_tasks *) intros _. right; left. lsimp. rewrite upd_eq. lia.
+  - (* LCoRet *) destruct r; try (lsimp; rewrite ?upd_eq; cbn [in_call bud_coll]; intro X; try discriminate X;
+                                   destruct (I eq_refl) as [Y|[Y|Y]]; try discriminate Y; auto; fail).
+    destruct (I eq_refl) as [Y|[Y|Y]]; [| |discriminate Y].
+    + intros _. left. dmatch; lsimp; exact Y.
+    + assert (B0 : Nat.eqb (Nat.pred (bud l w)) 0 = false) by (apply Nat.eqb_neq; lia). rewrite B0.
+      destruct (Nat.eqb (Nat.pred (bud l w) mod interval P) 0) eqn:M; intros _.
+      * right; right. lsimp. now rewrite upd_eq.
+      * right; left. lsimp. rewrite upd_eq. apply Nat.eqb_neq in M.
+        destruct (Nat.eq_dec (Nat.pred (bud l w)) (interval P)) as [EQ|NE]; [|lia].
+        rewrite EQ, Nat.mod_same in M by lia. congruence.
 Qed.
 
 Lemma rcinv_step P l a l' : RCInv P l -> lstep P l a = Some l' -> RCInv P l'.
 Proof.
-  intros [I1 I2] H. split.
+  intros (I1 & I2 & I3) H. split; [|split].
   - intro w. specialize (I1 w). pose proof (lstep_ncoll_mono _ _ _ _ w H).
     destruct (lstep_nsel _ _ _ _ w H) as [[_ ->]|(nx & _ & _ & _ & ->)]; lia.
-  - intros WS w AC. destruct (lstep_inv _ _ _ _ H) as (G & s' & E & _).
+  - intros WS OK w AC. destruct (lstep_inv _ _ _ _ H) as (G & s' & E & _).
     destruct (option_nat_dec (actor a) (Some w)) as [A|NA].
-    + subst l'. destruct (after_actor P l a s' w WS A G AC) as [B|[-> B]].
-      * specialize (I2 WS w B). pose proof (lstep_ncoll_mono _ _ _ _ w H).
+    + subst l'. destruct (after_actor P l a s' w WS A G AC) as [B|[[-> B]|(-> & PC & BU & Z)]].
+      * specialize (I2 WS OK w B). pose proof (lstep_ncoll_mono _ _ _ _ w H).
         destruct (lstep_nsel _ _ _ _ w H) as [[_ ->]|(nx & -> & _)]; [lia|].
         unfold ctl in AC. lsimp. rewrite upd_eq in AC. discriminate.
       * specialize (I1 w). destruct (lstep_nsel _ _ _ _ w H) as [[_ ->]|(nx & X & _)]; [|discriminate X].
         destruct (lstep_ncoll _ _ _ _ w H) as [X|(_ & _ & _ & ->)]; [|lia].
         exfalso. cbn [guard] in G. gsplit G. pcs G1. unfold ctl in X. rewrite E, B in X. unfold inc in X. lsimp.
         rewrite upd_eq in X. lia.
-    + subst l'. rewrite wpc_ctl_other in AC by exact NA. specialize (I2 WS w AC).
+      * (* the budget is used up *)
+        destruct OK as [OK|OK]; [congruence|].
+        destruct (I3 BU OK w ltac:(rewrite PC; reflexivity)) as [Y|[Y|Y]]; [| lia | rewrite PC in Y; discriminate Y].
+        pose proof (lstep_ncoll_mono _ _ _ _ w H).
+        destruct (lstep_nsel _ _ _ _ w H) as [[_ ->]|(nx & X & _)]; [lia | discriminate X].
+    + subst l'. rewrite wpc_ctl_other in AC by exact NA. specialize (I2 WS OK w AC).
       pose proof (lstep_ncoll_mono _ _ _ _ w H).
       destruct (lstep_nsel _ _ _ _ w H) as [[_ ->]|(nx & -> & _)]; [lia|]. cbn in NA. congruence.
+  - intros BU IB w IC. destruct (lstep_inv _ _ _ _ H) as (G & s' & E & _).
+    destruct (option_nat_dec (actor a) (Some w)) as [A|NA].
+    + subst l'. apply (budget_actor P l a s' w BU IB A G (I1 w) (I3 BU IB w) IC).
+    + pose proof (lstep_ncoll_mono _ _ _ _ w H) as M.
+      assert (C : coll0 l' w = coll0 l w).
+      { destruct (lstep_nsel _ _ _ _ w H) as [[_ X]|(nx & -> & _)]; [exact X | cbn in NA; congruence]. }
+      subst l'. rewrite wpc_ctl_other in IC |- * by exact NA. rewrite bud_other by exact NA.
+      destruct (I3 BU IB w IC) as [Y|[Y|Y]]; auto. left. lia.
 Qed.
 
 Lemma rcinv_reach P n l : LReach P n l -> RCInv P l.
-Proof. induction 1; [split; [intro; cbn; lia | intros _ w X; discriminate X] | eapply rcinv_step; eauto]. Qed.
+Proof.
+  induction 1; [|eapply rcinv_step; eauto].
+  split; [intro; cbn; lia|]. split; [intros _ _ w X; discriminate X | intros _ _ w X; discriminate X].
+Qed.
